@@ -1,10 +1,13 @@
 """C08 - upstream connection reuse never sends a request to the wrong destination.
 
-Engine X (explicit-state BFS with fingerprint merging, vmc.explore.bfs) over the real
-ProxyConnectionHandler / HttpLayer.get_connection / register_connection / HttpClient /
-Http1Client (+ HttpUpstreamProxy tunnel) driven through World, for an HTTP/1 client and an
-HTTP/2 client (hyper-h2 peer; the "one upstream connection per flow" path), in regular and
-in upstream-proxy mode.
+Engine X (schedule DFS of vmc.explore._dev_rec: request choices are free, environment
+faults are deviation-bounded) over the real ProxyConnectionHandler /
+HttpLayer.get_connection / register_connection / HttpClient / Http1Client
+(+ HttpUpstreamProxy tunnel) driven through World, for an HTTP/1 client and an HTTP/2
+client (hyper-h2 peer; the "one upstream connection per flow" path), in regular and in
+upstream-proxy mode.  (A BFS with fingerprint merging was tried first; because live
+systems are rebuilt by replay for every transition it executed three times as many actions
+as the plain tree walk, so the tree walk is what is shipped.)
 
 A state is reached by a history of environment actions:
     req(v)        the client sends the next request; v picks destination and addon rewrite
@@ -38,9 +41,9 @@ from vmc.tally import HarnessError, Tally, digest
 
 META = {
     "level": "model_checking",
-    "technique": "explicit-state BFS with fingerprint merging over histories of client requests (destination x addon rewrite), connect outcomes, upstream answers and closes, executed on the real connection handler and HTTP layer; invariants checked in every state on the bytes of the mock upstream sockets",
+    "technique": "exhaustive DFS over histories of client requests (every destination x addon rewrite at every position, cost 0) with deviation-bounded environment faults (connect refusal, close after answer, idle close, HTTP/2 request overtaking a pending connect), executed on the real connection handler and HTTP layer; invariants judged on the bytes of the mock upstream sockets",
     "claim": "within the bound, for every history no request head is ever written to an upstream socket whose address, TLS nature or proxy tunnel differs from the request's destination at forward time, the flow's Server object agrees with that destination, address/via of an open Server cannot be reassigned, and a Server whose connect failed never carries a request",
-    "rule": "a state is a distinct fingerprint (request count, client-side transcript, per upstream socket: address/state/bytes/answered, recorded destinations); an execution is a root-to-leaf history; every transition is executed on the implementation",
+    "rule": "an execution is a root-to-leaf history (choice list); a state is a distinct fingerprint (request count, client-side transcript, per upstream socket: address/state/bytes/answered, mitmproxy's connection table, recorded destinations) observed after an action; non-trivial = at least two requests; every transition is executed on the implementation",
     "assumptions": [
         "upstream TLS is not completed (no TLS peer, no TlsConfig addon): an https destination fails at the TLS stage right after its TCP connect; the TLS dimension of matching is exercised by http and https requests to the same host:port",
         "hooks complete immediately; the client sends requests whole",
@@ -109,6 +112,8 @@ class Sys:
         self.had_fail = False
         self.disposed = False
         self.hist: list = []
+        self.overtaking = False
+        self.kept_open: set = set()
 
     # -- the addon -------------------------------------------------------------------------------------------------
     def policy(self, name, data, world):
@@ -195,7 +200,13 @@ class Sys:
         self.hist.append(a)
         kind = a[0]
         if kind == "req":
+            self.kept_open = set()
+            self.overtaking = False
             self.send_request(a[1])
+        elif kind == "skip":
+            self.kept_open.add(a[1])
+        elif kind == "reqnow":
+            self.overtaking = True
         elif kind == "ok":
             w.connect_ok(w.servers[a[1]])
         elif kind == "fail":
@@ -244,30 +255,33 @@ class Sys:
             return False
         return True
 
-    def actions(self, variants, max_req, concurrency):
+    def point(self, variants, max_req, concurrency):
+        """the next scheduling point: (actions, cost of deviating from actions[0]); actions[0] is the fault-free default.
+        `("skip",)` = nothing happens here.  Canonical order, simplest first."""
         w = self.w
-        acts = []
+        can_request = self.client_alive() and self.nreq < max_req and self.outstanding() < concurrency
+        overtake = [("reqnow",)] if (can_request and self.nreq > 0 and not self.overtaking) else []
+        if self.overtaking:
+            # the decision to let the next request overtake has been taken: which request?
+            return [("req", v) for v in variants], 0
         for i, e in enumerate(w.servers):
             if e.state == "pending" and e.connect_fut is not None and not e.connect_fut.done():
-                acts.append(("ok", i))
-        for i, e in enumerate(w.servers):
-            if e.state == "pending" and e.connect_fut is not None and not e.connect_fut.done():
-                acts.append(("fail", i))
+                return [("ok", i), ("fail", i)] + overtake, 1
         for i, e in enumerate(w.servers):
             if e.state != "open" or e.r.eof or e.w.closed:
                 continue
             msgs, verdict = self.heads(i)
             if len(msgs) > self.answered.get(i, 0):
-                acts.append(("ans", i))
-                if msgs[self.answered.get(i, 0)]["start"][0] != b"CONNECT":
-                    acts.append(("ansclose", i))
-            elif verdict == "ok" and self.nreq < max_req and self.client_alive():
-                # an idle upstream closes: only interesting while another request can still follow
-                acts.append(("eof", i))
-        if self.client_alive() and self.nreq < max_req and self.outstanding() < concurrency:
-            for v in variants:
-                acts.append(("req", v))
-        return acts
+                if msgs[self.answered.get(i, 0)]["start"][0] == b"CONNECT":
+                    return [("ans", i)] + overtake, 1
+                return [("ans", i), ("ansclose", i)] + overtake, 1
+        if not can_request:
+            return [], 0
+        # everything is quiet and another request can follow: may an idle upstream close first?
+        idle = [i for i, e in enumerate(w.servers) if e.state == "open" and not e.r.eof and not e.w.closed and i not in self.kept_open]
+        if idle:
+            return [("skip", idle[0]), ("eof", idle[0])], 1
+        return [("req", v) for v in variants], 0
 
     # -- fingerprint -----------------------------------------------------------------------------------------------
     def fingerprint(self):
@@ -379,62 +393,54 @@ def judge(s: Sys, hist, t: Tally):
     t.judge("no_internal_error", not crashes, dict(base, variant=s.variants[-1] if s.variants else "-", reused=False), case, "no exception inside the proxy core", crashes[:2])
 
 
-# ---------------------------------------------------------------------------------------------- spec for vmc.explore.bfs
-class Spec:
-    def __init__(self, proto, mode, variants, max_req, first=None):
+# ---------------------------------------------------------------------------------------------- executor for vmc.explore._dev_rec
+class Exec:
+    def __init__(self, proto, mode, variants, max_req):
         self.proto, self.mode, self.variants, self.max_req = proto, mode, variants, max_req
-        self.first = first  # the root of this exploration is the state after the client's first request `first`
         self.concurrency = 1 if proto == "h1" else 2
-        self._live = []
-        self._clone = None
 
-    # Worlds share one Master/Probe per process, and the Probe reports to the World built last.  So only the most
-    # recently built system may execute actions: `clone` (= rebuild by replaying the history) gives the explorer a
-    # fresh system for every transition, the base system is only read (actions / fingerprint / final).
-    def build(self):
-        for s in self._live:
-            s.dispose()
-        del self._live[:]
-        if self._clone is not None:
-            self._clone.dispose()
-            self._clone = None
+    def run(self, prefix, t: Tally, verbose=False):
         s = Sys(self.proto, self.mode)
-        self._live.append(s)
-        if self.first is not None:
-            s.apply(("req", self.first))
-        return s
-
-    def clone(self, s):
-        if self._clone is not None:
-            self._clone.dispose()
-        c = Sys(self.proto, self.mode)
-        self._clone = c
-        for a in s.hist:
-            c.apply(a)
-        return c
-
-    def actions(self, s):
-        return s.actions(self.variants, self.max_req, self.concurrency)
-
-    def apply(self, s, a):
-        s.apply(tuple(a))
-
-    def fingerprint(self, s):
-        return s.fingerprint()
-
-    def check(self, s, hist, t):
-        judge(s, s.hist, t)
-        t.state(s.fingerprint())  # de-duplicated across tasks (two first requests can lead to identical states)
-
-    def final(self, s, hist, t):
-        closed = s.hw.close_out() if s.hw is not None else s.w.close_out()
-        hist = list(s.hist)
-        judge(s, hist, t)
-        feats = {"proto": s.proto, "mode": s.mode, "prior_fail": s.had_fail, "variant": s.variants[-1] if s.variants else "-", "reused": False}
-        t.judge("handler_terminates", closed, feats, {"proto": s.proto, "mode": s.mode, "hist": [list(a) for a in hist]}, True, closed)
-        nontrivial = s.nreq >= 2
-        t.case({"proto": s.proto, "mode": s.mode, "hist": [list(a) for a in hist]} if (nontrivial and len(t.samples) < 2) else None, nontrivial=nontrivial, key=[s.proto, s.mode, hist])
-        t.outcome([s.proto, s.mode, [[list(e.address), e.state, len(s.heads(i)[0])] for i, e in enumerate(s.w.servers)]])
+        choices, widths, costs = [], [], []
+        try:
+            for _ in range(200):
+                acts, cost = s.point(self.variants, self.max_req, self.concurrency)
+                if not acts:
+                    break
+                if len(acts) > 1:
+                    k = prefix[len(choices)] if len(choices) < len(prefix) else 0
+                    if k >= len(acts):
+                        raise HarnessError("choice out of range while replaying %r" % (prefix,))
+                    choices.append(k)
+                    widths.append(len(acts))
+                    costs.append(cost)
+                    a = acts[k]
+                else:
+                    a = acts[0]
+                s.apply(a)
+                t.transitions += 1
+                t.state(s.fingerprint())
+                if verbose:
+                    print("after", a, "sockets", [(e.address, e.state, e.w.data[:100]) for e in s.w.servers])
+            else:
+                raise HarnessError("history does not terminate")
+            # the sockets' bytes, the recorded destinations and the hook objects only ever grow: judging the last state
+            # (before and after the close-out) judges every state of the history
+            hist = list(s.hist)
+            judge(s, hist, t)
+            closed = s.hw.close_out() if s.hw is not None else s.w.close_out()
+            judge(s, hist, t)
+            case = {"proto": s.proto, "mode": s.mode, "hist": [list(a) for a in hist]}
+            feats = {"proto": s.proto, "mode": s.mode, "prior_fail": s.had_fail, "variant": s.variants[-1] if s.variants else "-", "reused": False}
+            t.judge("handler_terminates", closed, feats, case, True, closed)
+            nontrivial = s.nreq >= 2
+            t.case(case if (nontrivial and len(t.samples) < 2 and s.had_fail) else None, nontrivial=nontrivial, key=[s.proto, s.mode, hist])
+            t.outcome([s.proto, s.mode, [[list(e.address), e.state, len(s.heads(i)[0])] for i, e in enumerate(s.w.servers)]])
+            if verbose:
+                print("intended", s.intended, "\nattempts", s.attempts, "\nerrors", s.w.errors)
+        finally:
+            s.dispose()
+        return choices, widths, costs
 
 
 CONFIGS = [("h1", "regular"), ("h1", "upstream"), ("h2", "regular"), ("h2", "upstream")]
@@ -452,35 +458,40 @@ def pool_size():
 
 
 def run(ctx):
-    variants = QUICK_VARIANTS if ctx.tier == "quick" else list(VARIANTS)
-    max_req = {"h1": ctx.pick(3, 4), "h2": ctx.pick(2, 3)}
-    depth = ctx.pick(12, 16)
+    allv = list(VARIANTS)
+    # plans: (client protocol, request variants, max requests, environment deviation bound); each for both proxy modes
+    if ctx.tier == "quick":
+        plans = [("h1", QUICK_VARIANTS, 3, 2), ("h2", QUICK_VARIANTS, 2, 2)]
+    else:
+        plans = [("h1", QUICK_VARIANTS, 4, 2), ("h1", allv, 3, 3), ("h2", QUICK_VARIANTS, 3, 2), ("h2", allv, 2, 3)]
     ctx.bounds = {
-        "configs": ["%s/%s" % c for c in CONFIGS], "request_variants": variants, "variants": {k: list(v) for k, v in VARIANTS.items()},
-        "max_requests": max_req, "h2_concurrent_streams": 2, "depth": depth,
-        "environment": ["connect ok/fail", "answer", "answer+Connection: close+close", "idle close"],
+        "modes": ["regular", "upstream:http://proxy.test:8080"], "variants": {k: list(v) for k, v in VARIANTS.items()},
+        "plans": [{"client": p, "request_variants": v, "max_requests": r, "environment_deviation_bound": b} for p, v, r, b in plans],
+        "h2_concurrent_streams": 2,
+        "request_choices": "every variant at every position (cost 0)",
+        "environment_deviations": ["connect refused", "answer with Connection: close + close", "idle upstream closes before the next request", "HTTP/2: next request overtakes a pending connect/answer"],
     }
-    # One BFS per (configuration, first request), each run in-process inside a worker: the root of a task is the state
-    # after the client's first request.  (A forked pool per BFS level was measured to be much slower on this machine.)
-    tasks = [(proto, mode, v, variants, max_req[proto], depth, ctx.pick(60000, 400000)) for proto, mode in CONFIGS for v in variants]
-    ctx.log("%d BFS tasks (configuration x first request)" % len(tasks))
+    # determinism self-test: the default execution twice
+    for proto, mode in CONFIGS:
+        ex = Exec(proto, mode, QUICK_VARIANTS, 2)
+        if ex.run((), Tally()) != ex.run((), Tally()):
+            raise HarnessError("default execution of %s/%s is not deterministic" % (proto, mode))
+    # one task per (plan, mode, first request)
+    tasks = []
+    for proto, variants, max_req, bound in plans:
+        for mode in ("regular", "upstream"):
+            for i in range(len(variants)):
+                tasks.append((proto, mode, variants, max_req, bound, (i,)))
+    ctx.log("%d DFS tasks (plan x mode x first request)" % len(tasks))
     par.pmap_tally(task_fn, tasks, ctx.tally, nchunks=len(tasks), nproc=pool_size())
     t = ctx.tally
-    if t.extra.get("capped_tasks"):
-        ctx.cap("state cap hit in %d tasks" % t.extra["capped_tasks"])
     ctx.log("distinct states %d, transitions %d, executions %d" % (len(t.state_set), t.transitions, t.executions))
 
 
 def task_fn(chunk):
     t = Tally()
-    for proto, mode, first, variants, max_req, depth, max_states in chunk:
-        spec = Spec(proto, mode, variants, max_req, first=first)
-        states, capped = explore.bfs(spec, depth, t, nproc=1, max_states=max_states)
-        if capped:
-            t.add("capped_tasks")
-        for s in spec._live + ([spec._clone] if spec._clone is not None else []):
-            s.dispose()
-    t.states = 0  # distinct states are counted through t.state() (set union across tasks), not per task
+    for proto, mode, variants, max_req, bound, prefix in chunk:
+        explore._dev_rec(Exec(proto, mode, variants, max_req), tuple(prefix), 0, bound, t)
     return t
 
 
